@@ -405,13 +405,17 @@ func subjectFor(r *mon.Rec, kind string, idx int, typed map[int]string) subject 
 						switch v := o.(type) {
 						case *dhcpv6.OptIANA:
 							v.T1, v.T2 = big, big+time.Second
-							for _, a := range v.Options.Addresses() {
-								a.PreferredLifetime, a.ValidLifetime = big, big+time.Millisecond
+							for _, so := range v.Options.Options {
+								if a, ok := so.(*dhcpv6.OptIAAddress); ok {
+									a.PreferredLifetime, a.ValidLifetime = big, big+time.Millisecond
+								}
 							}
 						case *dhcpv6.OptIAPD:
 							v.T1, v.T2 = big, big+time.Second
-							for _, a := range v.Options.Prefixes() {
-								a.PreferredLifetime, a.ValidLifetime = big, big+time.Millisecond
+							for _, so := range v.Options.Options {
+								if a, ok := so.(*dhcpv6.OptIAPrefix); ok {
+									a.PreferredLifetime, a.ValidLifetime = big, big+time.Millisecond
+								}
 							}
 						}
 					}
